@@ -2236,6 +2236,10 @@ func c06_runC06(e *Env) {
 		"calls a function with a deferred loop, just defines things} x {what follows the import}, seeded random shapes of every other class in which random stretches of code (main code, callbacks, functions, deferred closures, spawned functions) are moved into modules imported there, " +
 		"and sequences on one VM whose earlier evaluations imported modules; " +
 		"sequences: systematic {same context re-supplied after it fired while the VM was idle, retry after a cancelled evaluation, cancellation during the n-th evaluation, another live context first} x {Call, RunCode} x parking actions, and seeded random ones; " +
+		"several evaluations sharing host-supplied channel objects (object.NewChan handed to each as a global; every evaluation has its OWN context): fixed witnesses and seeded random cases of 2..4 evaluations " +
+		"{risor-style Run whose main code blocks, vm.Call of a function that blocks — on a VM of its own or on the VM of an earlier run whose worker is still parked —, a run whose main code returns and leaves a worker goroutine blocked} x " +
+		"{for-range, <-c, c.receive() on an empty channel; c <- v, c.send(v) on a full one; one or two operations} x {1..2 channel objects, mostly ONE shared by all} x {own context per evaluation, sometimes one context given to two; cancel(), own deadline for the consumer started last} x " +
+		"{order of the cancellations: last started first, start order, random; some contexts never cancelled during the observation}; after every cancellation exactly the consumers of that context must have ended (call returned / worker reached its ended() call), the others stay parked; " +
 		"instants: context already fired before the start, fired while every thread is parked (logical sync on tick/mark counters) or after the main code returned; context kinds: cancel(), own deadline reached, " +
 		"cancel() of a context whose own / inherited / wrapped deadline is far away, cancel() of the parent; " +
 		"non-trivial when some thread would loop or block for ever without cancellation; distinct by the whole tuple"
@@ -2636,6 +2640,9 @@ func c06_runC06(e *Env) {
 		c06Normalise(&c)
 		c06EvalImported(e, c, d.site+" (VM used before)", d.body)
 	}
+	// 10. several evaluations, each with its own context, sharing host-supplied channel objects
+	// (c06shared.go; model RisorModel/C06/Shared.lean)
+	c06RunShared(e, rng)
 	// 6. the RunCode reset race, directly
 	c06ProbeReset(e, probe)
 	for id, c := range c06ProposedSeen {
